@@ -626,7 +626,9 @@ Proof.
       + destruct (i_clke _ _ _ I e en Hn) as (Hmx & _). unfold maxchg, chgv in *.
         assert (Xs: s_chg (gs en3 s) = s_chg (gs en s)) by (rewrite Hf_s; reflexivity).
         assert (Xt: s_chg (gs en3 t) = s_chg (gs en t)) by (rewrite Hf_t; reflexivity).
-        unfold t in *. destruct s; simpl in *; rewrite Xs, Xt; lia.
+        change (e_l en3) with (gs en3 false). change (e_r en3) with (gs en3 true).
+        change (e_l en) with (gs en false) in Hmx. change (e_r en) with (gs en true) in Hmx.
+        clear - Xs Xt Hmx SC. unfold t in *. destruct s; cbn [negb] in *; rewrite Xs, Xt; lia.
       + intros sd0. rewrite Hlg_e. destruct (i_clke _ _ _ I e en Hn) as (_ & Hlgs). specialize (Hlgs sd0). lia.
       + exact WT.
       + apply SJ. apply (i_idx _ _ _ I).
@@ -643,5 +645,247 @@ Proof.
         rewrite Hf_t in Ho0. cbn [s_oid] in Ho0. injection Ho0 as Ho0. apply Nnat.Nat2N.inj in Ho0. subst k0. left. exact Hpdt. }
   change (negb s) with t. rewrite Hf_s, Hf_t. cbn [w_spath w_shash s_oid s_hash s_shash].
   split; [exact Ho|]. split; [discriminate|]. split; [reflexivity|]. split; [exact Hf_i|].
+  split; [exact H4ps|]. split; [exact Hgx_o|exact Hlg_e].
+Qed.
+
+(* ------------------------------------------------------------------ upload_synced *)
+Lemma obj_at_hset w t pv k0 k' ob'' :
+  prov_of w t = pv -> forall heap0, ProvModel.p_heap pv = ProvModel.hset heap0 k' ob'' -> (k' < length heap0)%nat ->
+  nth_error (ProvModel.p_heap pv) k0 = if Nat.eqb k0 k' then Some ob'' else nth_error heap0 k0.
+Proof.
+  intros _ heap0 H Hlt. rewrite H. destruct (Nat.eqb_spec k0 k') as [Heq|Hne].
+  - subst k0. apply nth_hset_same. exact Hlt.
+  - apply nth_hset_other. exact Hne.
+Qed.
+
+Lemma upload_pres g w e en s k ob cs k' ob' n w3 calls up :
+  SCtx g w e en -> e_ign en = INone ->
+  s_oid (gs en s) = Some (ostr_k k) -> obj_at w s k = Some ob -> ProvModel.o_exists ob = true ->
+  g_get k (g_of g s) = Some cs ->
+  s_oid (gs en (negb s)) = Some (ostr_k k') -> obj_at w (negb s) k' = Some ob' ->
+  ProvModel.o_path ob = [root_name s; n] ->
+  s_path (gs en s) = Some (pstr [root_name s; n]) -> tchg (s_chg (gs en s)) = true ->
+  x_tfile (getx w e s) = None ->
+  upload_synced (setx (tname_world w e s en (pstr [root_name s; n])) e s (set_tfile (ProvModel.o_data ob))) e s = ROk (w3, calls, up) ->
+  up = true /\ exists en3, SCtx g w3 e en3 /\
+    s_oid (gs en3 s) = Some (ostr_k k) /\ s_oid (gs en3 (negb s)) <> None /\ s_hash (gs en3 s) = s_shash (gs en3 s) /\
+    e_ign en3 = INone /\ prov_of w3 s = prov_of w s /\
+    (forall x sd0, x <> e -> getx w3 x sd0 = getx w x sd0) /\ (forall sd0, x_lg (getx w3 e sd0) = x_lg (getx w e sd0)).
+Proof.
+  intros [I He Hn Hr] Hign Ho Hob Hl Hg Hot Hobt Hpath Hsp Hc Htf H.
+  set (t := negb s) in *.
+  pose proof (i_cfg _ _ _ I) as Hcfg. pose proof (i_ents _ _ _ I e en He Hn) as EO.
+  assert (Hndisc: is_discarded (e_ign en) = false) by (rewrite Hign; reflexivity).
+  (* the peer is the engine's object: alive, and what its markers say *)
+  destruct (so_full _ _ _ _ _ _ (eo_side _ _ _ _ _ EO s) _ Ho) as (k1 & ob1 & Hk1 & Hob1 & Hk2 & FO).
+  apply ostr_k_inj in Hk1. subst k1. assert (ob1 = ob) by congruence. subst ob1.
+  destruct (so_full _ _ _ _ _ _ (eo_side _ _ _ _ _ EO t) _ Hot) as (k1 & ob1 & Hk1 & Hob1' & Hk2' & FOt).
+  apply ostr_k_inj in Hk1. subst k1. assert (ob1 = ob') by congruence. subst ob1.
+  assert (Hot_ne: s_oid (gs en (negb s)) <> None) by (fold t; rewrite Hot; discriminate).
+  destruct (fo_owner _ _ _ _ _ _ _ _ FO Hndisc cs Hg) as (P1 & P2 & P3 & P4 & P5).
+  destruct (P5 Hot_ne) as (Q1 & Q2 & Q3 & Q4).
+  assert (Hgt: g_get k' (g_of g t) = None) by (apply Q4; exact Hot).
+  destruct (fo_mirror _ _ _ _ _ _ _ _ FOt Hndisc Hgt) as (M1 & M2 & M3 & M4 & M5 & M6 & (k2 & ob2 & M7 & M8 & M9 & M10)).
+  destruct (sh_files _ _ (i_shape _ _ _ I t) k' ob' Hk2' Hobt) as (Hkf' & n' & Hpn' & Hnok').
+  destruct (tname_world_facts w e s en (pstr [root_name s; n]) Htf) as (TA & TB & TC & TD & TF & TG & TH).
+  set (w0 := tname_world w e s en (pstr [root_name s; n])) in *.
+  set (data := ProvModel.o_data ob) in *.
+  set (w1 := setx w0 e s (set_tfile data)) in *.
+  assert (H1cfg: w_cfg w1 = cfg_std 1) by (unfold w1; rewrite w_cfg_setx; congruence).
+  assert (H1st: w_st w1 = w_st w) by (unfold w1; rewrite w_st_setx; exact TB).
+  assert (H1prov: forall sd0, prov_of w1 sd0 = prov_of w sd0) by (intros; unfold w1; rewrite prov_of_setx; apply TC).
+  unfold upload_synced in H.
+  assert (Htd: temp_data w1 e s = ROk data) by (unfold temp_data, w1; rewrite getx_setx_same; reflexivity).
+  rewrite Htd in H. cbn [rbind] in H.
+  unfold get_e, lift, get_ent in H. rewrite H1st, Hn in H. cbn [rbind] in H. fold t in H. rewrite Hot in H.
+  rewrite (key_of_std w1 t k' H1cfg) in H. cbn [rbind] in H. rewrite (H1prov t) in H.
+  pose proof (i_pwf _ _ _ I t) as HWt. unfold obj_at in Hobt.
+  destruct (upload_spec _ _ _ data HWt Hobt M1 Hkf') as (pv & Eup & Hheap & Hlog & Hcur & Hpcfg & HWv).
+  rewrite Eup in H.
+  set (ob'' := ProvModel.set_data ob' data) in *.
+  set (w2 := with_prov w1 t pv) in *.
+  assert (H2cfg: w_cfg w2 = cfg_std 1) by (unfold w2, with_prov; destruct t; exact H1cfg).
+  assert (H2st: w_st w2 = w_st w) by (unfold w2, with_prov; destruct t; exact H1st).
+  assert (H2tape: tape (w_st w2) = []) by (rewrite H2st; apply (i_tape _ _ _ I)).
+  assert (H2n: nth_error (ents (w_st w2)) e = Some en) by (rewrite H2st; exact Hn).
+  assert (Hid: ProvModel.i_data (ProvModel.info_of ob'') = Some data) by (unfold ProvModel.info_of, ob''; simpl; rewrite Hkf'; reflexivity).
+  rewrite Hid in H.
+  destruct (plain_w w2 H2tape e t (fun y => w_hash y (Some data)) en H2n) as (wa & Ha & Wa); [intros; split; reflexivity|].
+  rewrite Ha in H. cbn [rbind] in H. set (ena := ss en t (w_hash (gs en t) (Some data))) in *.
+  pose proof (weff_nth _ _ _ _ _ _ Wa H2n) as Hna. assert (Hta: tape (w_st wa) = []) by (destruct Wa as (_ & _ & _ & _ & _ & T); exact T).
+  destruct (plain_w wa Hta e t (fun y => w_shash y (Some data)) ena Hna) as (wb & Hb & Wb); [intros; split; reflexivity|].
+  rewrite Hb in H. cbn [rbind] in H. set (enb := ss ena t (w_shash (gs ena t) (Some data))) in *.
+  pose proof (weff_nth _ _ _ _ _ _ Wb Hna) as Hnb. assert (Htb: tape (w_st wb) = []) by (destruct Wb as (_ & _ & _ & _ & _ & T); exact T).
+  unfold get_e, lift, get_ent in H. rewrite Hnb in H. cbn [rbind] in H.
+  assert (Hsp_t: s_spath (gs enb t) = Some (pstr (ProvModel.o_path ob'))) by (unfold enb, ena; rewrite !gs_ss_same; exact M5).
+  rewrite Hsp_t in H. rewrite tstr_pstr in H. cbn [rbind] in H.
+  assert (Hs_b: gs enb s = gs en s) by (unfold enb, ena; rewrite !gs_ss_neq by (unfold t; destruct s; discriminate); reflexivity).
+  rewrite Hs_b in H.
+  destruct (plain_w wb Htb e s (fun y => w_shash y (s_hash (gs en s))) enb Hnb) as (wc & Hcc & Wc); [intros; split; reflexivity|].
+  rewrite Hcc in H. cbn [rbind] in H. set (enc := ss enb s (w_shash (gs enb s) (s_hash (gs en s)))) in *.
+  pose proof (weff_nth _ _ _ _ _ _ Wc Hnb) as Hnc. assert (Htc: tape (w_st wc) = []) by (destruct Wc as (_ & _ & _ & _ & _ & T); exact T).
+  destruct (plain_w wc Htc e s (fun y => w_spath y (s_path (gs en s))) enc Hnc) as (wd & Hd & Wd); [intros; split; reflexivity|].
+  rewrite Hd in H. cbn [rbind] in H. set (end_ := ss enc s (w_spath (gs enc s) (s_path (gs en s)))) in *.
+  pose proof (weff_nth _ _ _ _ _ _ Wd Hnc) as Hnd. assert (Htd': tape (w_st wd) = []) by (destruct Wd as (_ & _ & _ & _ & _ & T); exact T).
+  pose proof (weff_trans _ _ _ _ _ _ _ _ (weff_trans _ _ _ _ _ _ _ _ (weff_trans _ _ _ _ _ _ _ _ Wa Wb) Wc) Wd) as Wad. cbn [mcomp] in Wad.
+  assert (Hdcfg: w_cfg wd = cfg_std 1) by (destruct Wad as (A & _); congruence).
+  assert (HdI: IdxJ (w_st wd)) by (destruct Wad as (_ & _ & _ & _ & (_ & _ & _ & _ & J) & _); apply J; rewrite H2st; apply (i_idx _ _ _ I)).
+  unfold get_e, lift, get_ent in H. rewrite Hnd in H. cbn [rbind] in H.
+  assert (Hst: t <> s) by (unfold t; destruct s; discriminate).
+  assert (Hgt_d: gs end_ t = w_shash (w_hash (gs en t) (Some data)) (Some data)).
+  { unfold end_, enc. rewrite !gs_ss_neq by exact Hst. unfold enb, ena. rewrite !gs_ss_same. reflexivity. }
+  assert (Hgs_d: gs end_ s = w_spath (w_shash (gs en s) (s_hash (gs en s))) (s_path (gs en s))).
+  { unfold end_, enc. rewrite !gs_ss_same, Hs_b. reflexivity. }
+  assert (Hio: kstr (ProvModel.i_oid (ProvModel.info_of ob'')) = ostr_k k').
+  { unfold ProvModel.info_of, ob''. simpl. rewrite (pw_oid _ HWt _ _ Hobt). reflexivity. }
+  rewrite Hio in H.
+  assert (Hpath_d: s_spath (gs end_ t) = s_path (gs end_ t)) by (rewrite Hgt_d; cbn [w_shash w_hash s_spath s_path]; congruence).
+  rewrite Hpath_d in H.
+  assert (Hal: al_get (ostr_k k') (oids (w_st wd) t) = Some e).
+  { apply (idx_found_get _ _ _ _ _ HdI Hnd). rewrite Hgt_d. cbn [w_shash w_hash s_oid]. exact Hot. }
+  destruct (upd_entry_same_w wd e t (ostr_k k') end_ Hdcfg Htd' Hnd) as (w4 & H4 & W4).
+  { rewrite Hgt_d. cbn [w_shash w_hash s_oid]. exact Hot. }
+  { exact Hal. }
+  { intros q Hq. rewrite Hgt_d in Hq. cbn [w_shash w_hash s_path] in Hq. rewrite M6 in Hq. injection Hq as <-. rewrite Hpn'.
+    apply nps_pstr. constructor; [apply root_name_ok|]. constructor; [exact Hnok'|constructor]. }
+  rewrite H4 in H. cbn [rbind] in H. injection H as <- <- <-. split; [reflexivity|].
+  match type of W4 with weff _ _ _ ?EN _ => set (en3 := EN) in * end.
+  pose proof (weff_trans _ _ _ _ _ _ _ _ Wad W4) as W24.
+  exists en3.
+  assert (Hf_t: gs en3 t = w_ex (w_shash (w_hash (gs en t) (Some data)) (Some data)) ExExists).
+  { unfold en3. rewrite gs_ss_same, Hgt_d. cbn [w_shash w_hash s_ex]. rewrite M2. reflexivity. }
+  assert (Hf_s: gs en3 s = w_spath (w_shash (gs en s) (s_hash (gs en s))) (s_path (gs en s))).
+  { unfold en3. rewrite gs_ss_neq by (intros X; apply Hst; symmetry; exact X). exact Hgs_d. }
+  assert (Hf_i: e_ign en3 = INone) by (unfold en3, end_, enc, enb, ena; rewrite !ign_ss; exact Hign).
+  assert (H4cfg: w_cfg w4 = w_cfg w) by (destruct W24 as (A & _); rewrite A, H2cfg; symmetry; exact Hcfg).
+  assert (H4ps: prov_of w4 s = prov_of w s).
+  { rewrite (weff_prov _ _ _ _ _ s W24). assert (X: prov_of w2 s = prov_of w1 s) by (unfold w2, with_prov, t; destruct s; reflexivity).
+    rewrite X. apply H1prov. }
+  assert (H4pt: prov_of w4 t = pv).
+  { rewrite (weff_prov _ _ _ _ _ t W24). unfold w2, with_prov. destruct t; reflexivity. }
+  destruct W24 as (_ & _ & _ & W4x & (SA & SB & SC & SD & SJ) & WT). rewrite H2st in SA, SB, SC, SD, SJ.
+  assert (H4gx: forall x sd0, getx w4 x sd0 = getx w1 x sd0).
+  { intros. unfold getx. rewrite W4x. unfold w2, with_prov. destruct t; reflexivity. }
+  assert (Hgx_o: forall x sd0, x <> e -> getx w4 x sd0 = getx w x sd0).
+  { intros x sd0 Hne. rewrite H4gx. unfold w1. rewrite getx_setx_other by exact Hne. apply TD. exact Hne. }
+  assert (Hlg_e: forall sd0, x_lg (getx w4 e sd0) = x_lg (getx w e sd0)).
+  { intros sd0. rewrite H4gx. unfold w1. destruct (Bool.bool_dec sd0 s) as [Heq|Hne].
+    - subst sd0. rewrite getx_setx_same. simpl. exact TG.
+    - assert (sd0 = negb s) by (destruct sd0, s; try reflexivity; contradiction). subst sd0. rewrite getx_setx_other_side, TF. reflexivity. }
+  assert (Hlt': (k' < length (ProvModel.p_heap (prov_of w t)))%nat) by (apply nth_error_Some; congruence).
+  assert (Hobt4: obj_at w4 t k' = Some ob'') by (unfold obj_at; rewrite H4pt, Hheap; apply nth_hset_same; exact Hlt').
+  assert (Hobt_o: forall k0, k0 <> k' -> obj_at w4 t k0 = obj_at w t k0).
+  { intros k0 Hne. unfold obj_at. rewrite H4pt, Hheap. apply nth_hset_other. exact Hne. }
+  assert (Hobs: forall k0, obj_at w4 s k0 = obj_at w s k0) by (intros; unfold obj_at; rewrite H4ps; reflexivity).
+  assert (Hen4: nth_error (ents (w_st w4)) e = Some en3) by (rewrite SA; eapply nth_list_upd_eq; eauto).
+  set (ev := ProvModel.snapshot ProvModel.EvUpdate ob'' None) in *.
+  assert (Hpdt: pd (real_evl w4) t k' = true).
+  { unfold pd, real_evl. rewrite H4pt. rewrite (events_from_app _ _ _ Hcur Hlog (pw_cursor _ HWt)), existsb_app. cbn [existsb].
+    unfold ev_for at 2. unfold ev. cbn [ProvModel.snapshot ProvModel.e_oid]. unfold ob''. cbn [ProvModel.set_data ProvModel.o_oid].
+    rewrite (pw_oid _ HWt _ _ Hobt), key_eqb_refl, orb_true_r. reflexivity. }
+  assert (Hpds: forall k0, pd (real_evl w4) s k0 = pd (real_evl w) s k0) by (intros; unfold pd, real_evl; rewrite H4ps; reflexivity).
+  destruct FO as [f1 f2 f3 f4 f5 f6 f7 f8 f10 f9].
+  assert (Hhash: s_hash (gs en s) <> None) by (apply P4; rewrite Hsp; discriminate).
+  assert (Hs'': negb t = s) by (unfold t; destruct s; reflexivity). rewrite Hs'' in M7, M8, M10.
+  assert (Hk2eq: k2 = k) by (apply ostr_k_inj; congruence). subst k2.
+  assert (ob2 = ob) by congruence. subst ob2.
+  assert (EO3: EntOk (real_evl w4) g w4 e en3).
+  { constructor.
+    - left. exact Hf_i.
+    - destruct s; [right; change (e_r en3) with (gs en3 true)|left; change (e_l en3) with (gs en3 false)]; rewrite Hf_s; cbn [w_spath w_shash s_oid]; rewrite Ho; discriminate.
+    - intros sd0. destruct (Bool.bool_dec sd0 s) as [Heq|Hne].
+      + subst sd0. constructor; rewrite Hf_s; cbn [w_spath w_shash s_otype s_force s_oid s_chg s_path s_hash s_spath s_shash s_ex].
+        * apply (ent_file (real_evl w) g w e en EO s).
+        * apply (ent_force (real_evl w) g w e en EO s).
+        * rewrite Ho. discriminate.
+        * rewrite Ho. discriminate.
+        * intros o0 Ho0. rewrite Ho in Ho0. injection Ho0 as <-. exists k, ob. split; [reflexivity|]. split; [rewrite Hobs; exact Hob|]. split; [exact Hk2|].
+          assert (Hfl: flagP (real_evl w4) en3 s k) by (left; rewrite Hf_s; cbn [w_spath w_shash s_chg]; exact Hc).
+          constructor; rewrite ?Hf_s, ?Hf_i; fold t; rewrite ?Hf_t; cbn [w_spath w_shash w_hash w_ex s_ex s_path s_spath s_hash s_shash s_oid s_chg].
+          -- exact f1.
+          -- destruct (Hr s k ob Ho Hob) as [X|X]; [left; rewrite Hpds; exact X|right; right; exact X].
+          -- exact f3.
+          -- right. rewrite Hsp, Hpath. reflexivity.
+          -- intros X; discriminate.
+          -- rewrite Hot. intros _ X; discriminate.
+          -- intros; left; exact Hfl.
+          -- intros _ cs0 Hcs0. assert (cs0 = cs) by congruence. subst cs0.
+             split; [exact P1|]. split; [exact P1|]. split; [exact P3|]. split; [exact P4|].
+             intros _. split; [rewrite Hsp; discriminate|]. split; [exact Hhash|]. split; [left; reflexivity|exact Q4].
+          -- intros _ cs0 Hcs0. split; [rewrite Hot; intros X; discriminate|intros _; rewrite Hsp; discriminate].
+          -- intros _ X. congruence.
+      + assert (sd0 = t) by (unfold t; destruct sd0, s; try reflexivity; contradiction). subst sd0.
+        constructor; rewrite Hf_t; cbn [w_ex w_shash w_hash s_otype s_force s_oid s_chg s_path s_hash s_spath s_shash s_ex].
+        * apply (ent_file (real_evl w) g w e en EO t).
+        * apply (ent_force (real_evl w) g w e en EO t).
+        * rewrite Hot. discriminate.
+        * rewrite Hot. discriminate.
+        * intros o0 Ho0. rewrite Hot in Ho0. injection Ho0 as <-. exists k', ob''. split; [reflexivity|]. split; [exact Hobt4|]. split; [exact Hk2'|].
+          assert (Hs': negb t = s) by (unfold t; destruct s; reflexivity).
+          destruct FOt as [g1 g2 g3 g4 g5 g6 g7 g8 g10 g9].
+          constructor; rewrite ?Hf_t, ?Hf_i, ?Hs', ?Hf_s; cbn [w_spath w_shash w_hash w_ex s_ex s_path s_spath s_hash s_shash s_oid s_chg].
+          -- intros X; discriminate.
+          -- left. exact Hpdt.
+          -- exact g3.
+          -- exact g4.
+          -- intros X; discriminate.
+          -- rewrite Ho. intros _ X; discriminate.
+          -- intros; left; right; exact Hpdt.
+          -- intros _ cs0 Hcs0. congruence.
+          -- intros _ cs0 Hcs0. congruence.
+          -- intros _ _. split; [exact M1|]. split; [reflexivity|]. split; [reflexivity|]. split; [reflexivity|]. split; [exact M5|]. split; [exact M6|].
+             exists k, ob. split; [exact Ho|]. split; [rewrite Hobs; exact Hob|]. split; [exact M9|exact M10]. }
+  split.
+  { constructor; [|exact He|exact Hen4|].
+    - apply (inv_prov_step g w w4 e en3 t k' ob'' ev I He H4cfg).
+      + assert (Hs': negb t = s) by (unfold t; destruct s; reflexivity). rewrite Hs'. exact H4ps.
+      + rewrite H4pt. exact HWv.
+      + rewrite H4pt. exact Hcur.
+      + rewrite H4pt. exact Hlog.
+      + unfold ev, ob''. cbn [ProvModel.snapshot ProvModel.e_oid ProvModel.set_data ProvModel.o_oid]. apply (pw_oid _ HWt _ _ Hobt).
+      + exact Hk2'.
+      + exact Hobt4.
+      + reflexivity.
+      + unfold ev, ob''. cbn [ProvModel.snapshot ProvModel.e_exists ProvModel.set_data ProvModel.o_exists]. rewrite M1. intros X; discriminate.
+      + exact Hkf'.
+      + exists n'. split; [exact Hpn'|exact Hnok'].
+      + exact Hobt_o.
+      + intros ob0 Hob0 Hd0. unfold obj_at in Hob0. assert (ob0 = ob') by congruence. subst ob0. congruence.
+      + rewrite H4pt, Hheap, hset_length. lia.
+      + intros x xn Hne Hxn Hox. apply Hne. apply (idx_unique_ent _ _ _ _ _ _ _ (i_idx _ _ _ I) Hxn Hox Hn Hot).
+      + intros cs0 Hcs0. congruence.
+      + exact Hen4.
+      + rewrite SA. apply length_list_upd.
+      + intros x xn Hne Hxn. exists xn. split; [rewrite SA, nth_list_upd_neq by congruence; exact Hxn|apply same_but_prio_refl].
+      + intros x Hne. rewrite SB. cbn [mcomp]. destruct (tchg (s_chg (gs end_ t)) || tchg (s_chg (gs end_ (negb t))))%bool; [|reflexivity].
+        destruct (Nat.eqb_spec x e); [contradiction|reflexivity].
+      + intros _. rewrite SB. cbn [mcomp].
+        assert (Hcc2: (tchg (s_chg (gs end_ t)) || tchg (s_chg (gs end_ (negb t))))%bool = true).
+        { assert (Hs': negb t = s) by (unfold t; destruct s; reflexivity). rewrite Hs', Hgs_d. cbn [w_spath w_shash s_chg]. rewrite Hc. apply orb_true_r. }
+        rewrite Hcc2, Nat.eqb_refl. reflexivity.
+      + exact SC.
+      + rewrite SD. pose proof (i_clk _ _ _ I). lia.
+      + destruct (i_clke _ _ _ I e en Hn) as (Hmx & _). unfold maxchg, chgv in *.
+        assert (Xs: s_chg (gs en3 s) = s_chg (gs en s)) by (rewrite Hf_s; reflexivity).
+        assert (Xt: s_chg (gs en3 t) = s_chg (gs en t)) by (rewrite Hf_t; reflexivity).
+        change (e_l en3) with (gs en3 false). change (e_r en3) with (gs en3 true).
+        change (e_l en) with (gs en false) in Hmx. change (e_r en) with (gs en true) in Hmx.
+        clear - Xs Xt Hmx SC. unfold t in *. destruct s; cbn [negb] in *; rewrite Xs, Xt; lia.
+      + intros sd0. rewrite Hlg_e. destruct (i_clke _ _ _ I e en Hn) as (_ & Hlgs). specialize (Hlgs sd0). lia.
+      + exact WT.
+      + apply SJ. apply (i_idx _ _ _ I).
+      + exact Hgx_o.
+      + intros sd0 o0 (en0 & Hen0 & Ho0). assert (en0 = en) by congruence. subst en0.
+        destruct (Bool.bool_dec sd0 s) as [Heq|Hne]; [subst sd0; rewrite Hf_s; exact Ho0|].
+        assert (sd0 = t) by (unfold t; destruct sd0, s; try reflexivity; contradiction). subst sd0. rewrite Hf_t. exact Ho0.
+      + rewrite Hf_t. exact Hot.
+      + exact EO3.
+    - intros sd0 k0 ob0 Ho0 Hob0. destruct (Bool.bool_dec sd0 s) as [Heq|Hne].
+      + subst sd0. rewrite Hf_s in Ho0. cbn [w_spath w_shash s_oid] in Ho0. rewrite Hobs in Hob0.
+        rewrite Hpds, Hf_s. destruct (Hr s k0 ob0 Ho0 Hob0) as [X|X]; [left; exact X|right; apply freshP_markers; exact X].
+      + assert (sd0 = t) by (unfold t; destruct sd0, s; try reflexivity; contradiction). subst sd0.
+        rewrite Hf_t in Ho0. cbn [w_ex w_shash w_hash s_oid] in Ho0. rewrite Hot in Ho0. injection Ho0 as Ho0. apply Nnat.Nat2N.inj in Ho0. subst k0. left. exact Hpdt. }
+  change (negb s) with t. rewrite Hf_s, Hf_t. cbn [w_spath w_shash w_hash w_ex s_oid s_hash s_shash].
+  split; [exact Ho|]. split; [rewrite Hot; discriminate|]. split; [reflexivity|]. split; [exact Hf_i|].
   split; [exact H4ps|]. split; [exact Hgx_o|exact Hlg_e].
 Qed.
